@@ -249,6 +249,15 @@ impl<K, V> EntryPtr<K, V> {
     }
 }
 
+#[cfg(lru_mem_verif)]
+impl<K, V> EntryPtr<K, V> {
+
+    /// The address this pointer holds, without dereferencing it.
+    pub(crate) fn addr(&self) -> usize {
+        self.ptr as usize
+    }
+}
+
 #[cfg(test)]
 mod tests {
 
